@@ -467,4 +467,35 @@ Section Rules2.
     intros A H B. cbn [run]. rewrite A, H. cbn [parse_content_args parse_content mk tk targ tpos].
     unfold env_body_state in B. rewrite B. destruct a as [[? ?]|]; reflexivity.
   Qed.
+
+  (** ** the verbatim argument kind *)
+  Lemma verb_scan_eq od cd l : forall d n, verb_scan od cd l d n = vscan od cd l d n.
+  Proof.
+    induction l as [|c l IH]; intros d n; [reflexivity|]. cbn [verb_scan vscan].
+    destruct (N.eqb c cd); [destruct d as [|[|d']]; try reflexivity; apply IH|].
+    destruct (N.eqb c od); apply IH.
+  Qed.
+
+  Lemma rule_tverb n ps d pos ws od cd text rest :
+    skipn pos s = ws ++ od :: text ++ cd :: rest -> forallb is_space ws = true -> is_space od = false ->
+    vdelims d od = Some (od, cd) -> verb_scan od cd (text ++ cd :: rest) 1 0 = Some (length text) ->
+    R (S n) (TVerbDelim ps d pos)
+    = Ok (ONode (Some (NGroup (pos + length ws) (S (S (pos + length ws) + length text)) (ps_mode ps) [od] [cd]
+                              (Some (mk_nodelist None None
+                                       [Some (mk_chars ps (S (pos + length ws)) (S (pos + length ws) + length text) text)])))))
+         (S (S (pos + length ws) + length text)).
+  Proof.
+    intros SK W SP VD SC. rewrite run_verb. unfold verb_step.
+    rewrite (peek_space_at s pos ws (od :: text ++ cd :: rest) SK W SP). cbn [snd].
+    pose proof (skipn_shift _ _ _ _ SK) as SK0. rewrite (nth_error_of_skipn _ _ _ _ SK0).
+    change (verb_delims d od) with (vdelims d od). rewrite VD.
+    rewrite (skipn_S_of _ _ _ _ SK0), <- verb_scan_eq, SC.
+    unfold slice. rewrite (skipn_S_of _ _ _ _ SK0).
+    replace (S (pos + length ws) + length text - S (pos + length ws)) with (length text) by lia.
+    rewrite firstn_len_app. reflexivity.
+  Qed.
+
+  Lemma rule_tstdarg_verb n ps d pos :
+    R (S n) (TStdArg ps (AKVerb d) pos) = parse_content false (R n (TVerbDelim ps d pos)).
+  Proof. reflexivity. Qed.
 End Rules2.
